@@ -191,6 +191,42 @@ def run_le(case):
                 if not ok:
                     break
                 established += 1
+            elif kind == 'connect2':
+                _, a, b, c = op
+                for ev in cx.conn_events:
+                    ev.clear()
+                tb = sim.loop.create_task(world[a].device.connect(world[b].device.public_address, transport=0))
+                tc = sim.loop.create_task(world[a].device.connect(world[c].device.public_address, transport=0))
+                st = sim.loop.drive(lambda: tb.done() and tc.done(), vt_budget=30.0)
+                sim.probe('two_outgoing_classic_connects_in_flight')
+                bad = False
+                for t, peer in ((tb, b), (tc, c)):
+                    if not t.done():
+                        sim.violation_once('connect', 'connect-hang:classic:two-in-flight', describe_task(t))
+                        t.cancel()
+                        bad = True
+                    elif t.exception() is not None:
+                        sim.violation_once('connect', f'connect-failed:classic:two-in-flight:{type(t.exception()).__name__}', repr(t.exception()))
+                        bad = True
+                if bad:
+                    break
+                sim.loop.settle(vt_budget=1.0)
+                sim.loop.advance(0.01)
+                for t, peer in ((tb, b), (tc, c)):
+                    conn = t.result()
+                    if not bytes(conn.peer_address) == bytes(world[peer].device.public_address):
+                        sim.violation_once('wrongconn', 'connect-returned-wrong-connection:classic:two-in-flight', f'connect(N{peer}) returned a connection to {conn.peer_address}')
+                        bad = True
+                        break
+                    pev = [x for x in cx.conn_events[peer] if bytes(x.peer_address) == bytes(world[a].device.public_address)]
+                    if len(pev) != 1:
+                        sim.violation_once('pevent', f'peripheral-connection-event:classic:two-in-flight:count={len(pev)}', f'N{peer} saw {[(str(x.peer_address)) for x in cx.conn_events[peer]]}')
+                        bad = True
+                        break
+                    cx.links[(a, peer)] = [conn, pev[0]]
+                    established += 1
+                if bad:
+                    break
             elif kind == 'send':
                 _, (a, b), side, count, size = op
                 if not _send(cx, a, b, side, count, size):
@@ -517,6 +553,14 @@ def gen_classic(rng, tier, seed):
                 continue
             ops.append(['connect', a, b])
             links.append((a, b))
+        elif r < 0.43 and n == 3:
+            # two outgoing BR/EDR connections of one device in flight at the same time
+            a = rng.randrange(3)
+            b, c = [x for x in range(3) if x != a]
+            if any(l in links for l in ((a, b), (b, a), (a, c), (c, a))):
+                continue
+            ops.append(['connect2', a, b, c])
+            links += [(a, b), (a, c)]
         elif r < 0.75:
             if not links:
                 continue
@@ -569,6 +613,42 @@ def run_classic(case):
                     break
                 cx.links[(a, b)] = [conn, pev[0]]
                 established += 1
+            elif kind == 'connect2':
+                _, a, b, c = op
+                for ev in cx.conn_events:
+                    ev.clear()
+                tb = sim.loop.create_task(world[a].device.connect(world[b].device.public_address, transport=0))
+                tc = sim.loop.create_task(world[a].device.connect(world[c].device.public_address, transport=0))
+                st = sim.loop.drive(lambda: tb.done() and tc.done(), vt_budget=30.0)
+                sim.probe('two_outgoing_classic_connects_in_flight')
+                bad = False
+                for t, peer in ((tb, b), (tc, c)):
+                    if not t.done():
+                        sim.violation_once('connect', 'connect-hang:classic:two-in-flight', describe_task(t))
+                        t.cancel()
+                        bad = True
+                    elif t.exception() is not None:
+                        sim.violation_once('connect', f'connect-failed:classic:two-in-flight:{type(t.exception()).__name__}', repr(t.exception()))
+                        bad = True
+                if bad:
+                    break
+                sim.loop.settle(vt_budget=1.0)
+                sim.loop.advance(0.01)
+                for t, peer in ((tb, b), (tc, c)):
+                    conn = t.result()
+                    if not bytes(conn.peer_address) == bytes(world[peer].device.public_address):
+                        sim.violation_once('wrongconn', 'connect-returned-wrong-connection:classic:two-in-flight', f'connect(N{peer}) returned a connection to {conn.peer_address}')
+                        bad = True
+                        break
+                    pev = [x for x in cx.conn_events[peer] if bytes(x.peer_address) == bytes(world[a].device.public_address)]
+                    if len(pev) != 1:
+                        sim.violation_once('pevent', f'peripheral-connection-event:classic:two-in-flight:count={len(pev)}', f'N{peer} saw {[(str(x.peer_address)) for x in cx.conn_events[peer]]}')
+                        bad = True
+                        break
+                    cx.links[(a, peer)] = [conn, pev[0]]
+                    established += 1
+                if bad:
+                    break
             elif kind == 'send':
                 _, (a, b), side, count, size = op
                 if not _send(cx, a, b, side, count, size):
